@@ -420,6 +420,56 @@ Proof.
     rewrite group_names. cbn [app]. rewrite Hl. cbn [define_all].
     rewrite Hfresh. rewrite scan_spec_empty. rewrite (sym_set_fresh (spell n)) by exact Hnotin. apply Hm.
 Qed.
+Lemma etoks_noncomment e : filter noncomment (etoks spell e) = etoks spell e.
+Proof.
+  unfold etoks. induction (nprint e) as [|t r IH]; [reflexivity|]. cbn [map filter].
+  replace (noncomment (ntok_tok spell t)) with true; [rewrite IH; reflexivity|]. destruct t as [[n|o| |]|id]; reflexivity.
+Qed.
+Lemma equ_value_line labs kw e cmt : equ_value (mkPL labs (mkT tokText kw :: etoks spell e ++ cmt_toks cmt)) = etoks spell e.
+Proof.
+  unfold equ_value. cbn [pl_rest tl]. rewrite filter_app, etoks_noncomment. destruct cmt; cbn [cmt_toks filter noncomment t_typ]; apply app_nil_r.
+Qed.
+
+(* ... and they are the definitions in front, in order, as written *)
+Lemma r2_scan_table org its0 es : renders_doc2 spell org its0 es -> Forall (fun xk => labs_shape (fst xk)) es ->
+  forall syms, NoDup (map fst syms ++ map spell (map fst (equs its0))) ->
+  forall K, scan_spec (flat_map elem_plines es) syms K = K (syms ++ equ_entries spell (equs its0)).
+Proof.
+  induction 1 as [|org l its1 t k es [_ [Hop _]] _ IH|org c k its1 es _ _ IH|e kw cmt k its1 es Hkw _ _ IH|org n e labs kw cmt k its1 es Hl Hkw _ _ IH];
+    intros Hsh syms Hnd; [intros K; cbn [equs equ_entries map]; rewrite app_nil_r; reflexivity| | | |]; inversion Hsh as [|a b Hs1 Hs2]; subst; cbn [fst] in Hs1.
+  - pose proof (IH Hs2 syms Hnd) as Hm. intros K. cbn [equs].
+    cbn [flat_map]; rewrite scan_spec_app; unfold elem_plines; cbn [fst snd scan_spec]; unfold line_result.
+    destruct (optext_tok _ _ _ Hop) as [O1 [O2 O3]].
+    assert (Ek : forall w, is_kw (pl_first (mkPL (group_acc None (tl_labs t)) (snd (line_rest (LInstr t))))) w = false).
+    { intros w. unfold is_kw, pl_first. cbn [line_rest snd pl_rest app hd]. rewrite O3. rewrite andb_false_r. reflexivity. }
+    rewrite !Ek. rewrite scan_spec_empty. apply Hm.
+  - pose proof (IH Hs2 syms Hnd) as Hm. intros K. cbn [equs].
+    cbn [flat_map]; rewrite scan_spec_app; unfold elem_plines; cbn [fst snd scan_spec]; unfold line_result.
+    cbn [line_rest fst snd group_acc]. unfold is_kw, pl_first. cbn [pl_rest app hd t_typ ttype_eqb andb]. rewrite scan_spec_empty. apply Hm.
+  - pose proof (IH Hs2 syms Hnd) as Hm. intros K. cbn [equs].
+    cbn [flat_map]; rewrite scan_spec_app; unfold elem_plines; cbn [fst snd scan_spec]; unfold line_result.
+    destruct (dir_kw_facts kw "org" (or_introl eq_refl) Hkw) as [_ [_ [K1 [_ K3]]]]. cbn in K3.
+    cbn [line_rest fst snd group_acc]. unfold is_kw, pl_first. cbn [pl_rest app hd t_typ t_val]. rewrite K1, K3. rewrite !andb_false_r. rewrite scan_spec_empty. apply Hm.
+  - destruct (equ_kw_facts kw Hkw) as [_ [K2 [_ [K4 _]]]].
+    cbn [equs map fst] in Hnd.
+    assert (Hfresh : sym_has (spell n) syms = false).
+    { unfold sym_has. destruct (sym_find (spell n) syms) as [v|] eqn:E; [|reflexivity]. exfalso.
+      apply sym_find_in in E. apply NoDup_remove_2 in Hnd. apply Hnd. apply in_or_app. left. exact E. }
+    assert (Hnotin : ~ In (spell n) (map fst syms)).
+    { unfold sym_has in Hfresh. intros Hin. destruct (sym_find (spell n) syms) eqn:E; [discriminate Hfresh|].
+      clear - Hin E. induction syms as [|[k0 v0] s IHs]; [destruct Hin|]. cbn [sym_find map fst In] in *.
+      destruct (text_eqb (spell n) k0) eqn:Eq; [discriminate E|]. destruct Hin as [Hin|Hin]; [subst k0; rewrite text_eqb_refl in Eq; discriminate Eq|apply IHs; assumption]. }
+    assert (Hm : forall K, scan_spec (flat_map elem_plines es) (syms ++ [(spell n, etoks spell e)]) K
+                           = K ((syms ++ [(spell n, etoks spell e)]) ++ equ_entries spell (equs its1))).
+    { apply (IH Hs2). rewrite map_app. cbn [map fst]. rewrite <- app_assoc. cbn [app]. exact Hnd. }
+    intros K.
+    cbn [flat_map]; rewrite scan_spec_app; unfold elem_plines; cbn [fst snd scan_spec]; unfold line_result.
+    cbn [line_rest fst snd]. unfold is_kw, pl_first. cbn [pl_rest pl_labels app hd t_typ t_val]. rewrite K2, K4. cbn [ttype_eqb andb].
+    replace (ttype_eqb tokText tokText) with true by reflexivity. cbn [andb].
+    rewrite group_names. cbn [app]. rewrite Hl. cbn [define_all].
+    rewrite Hfresh. rewrite scan_spec_empty. rewrite (sym_set_fresh (spell n)) by exact Hnotin. rewrite equ_value_line, Hm.
+    cbn [equs equ_entries map fst snd]. rewrite <- app_assoc. reflexivity.
+Qed.
 End EquGlue2.
 
 Section EquGlue3.
